@@ -3,6 +3,12 @@ sys.path.insert(0, os.path.dirname(os.path.dirname(os.path.abspath(__file__))))
 from engine.extract import R, invalid_rule, reason_hash
 from specs.common_witprog import FLAG_ENUM
 import copy
+from C12.plan import SLICES as _S12
+SH = "src/script/script.h"
+def _opc(name):
+    return {"name": name, "kind": "const", "file": SH, "pat": name + r"\s*=\s*(0x[0-9a-fA-F]+),", "emit": "#define " + name + r" \1"}
+_SER = copy.deepcopy([x for x in _S12 if x["name"] == "CScriptNum_serialize"][0])
+RET_THIS = R("return *this", r"return \*this;", "return;", True)
 
 VC, TV, CH = "src/validation.cpp", "src/consensus/tx_verify.cpp", "src/consensus/consensus.h"
 INV = invalid_rule(r"state\.", "BlockValidationResult", "BlockState_Invalid")
@@ -44,26 +50,47 @@ SLICES = [
      "prologue": "int ConnectBlock_sigops_accumulation(int64_t* nSigOpsCost_p, const TxView* tx_p, unsigned flags, BlockValidationState* state)\n{\n    int64_t nSigOpsCost = *nSigOpsCost_p; int broke = 1;\n    do {",
      "epilogue": "    broke = 0;\n    } while (0);\n    *nSigOpsCost_p = nSigOpsCost;\n    return broke;\n}",
      "rules": [R("call:GetTransactionSigOpCost(tx, view, flags)", r"GetTransactionSigOpCost\(tx, view, flags\)", "GetTransactionSigOpCost(tx_p, flags)", True), INV]},
+    _opc("OP_0"), _opc("OP_PUSHDATA1"), _opc("OP_PUSHDATA2"), _opc("OP_PUSHDATA4"), _opc("OP_1"), _SER,
+    {"name": "AppendDataSize", "cname": "CScript_AppendDataSize", "kind": "func", "file": SH, "within_class": r"class CScript : public CScriptBase", "head": r"inline void AppendDataSize\(const uint32_t size\)",
+     "rules": [R("method-head", r"inline void AppendDataSize\(const uint32_t size\)", "void CScript_AppendDataSize(ByteVec* self, const uint32_t size)"),
+               R("insert(end(), begin, end)", r"insert\(end\(\), std::cbegin\(data\), std::cend\(data\)\);", "ByteVec_append(self, data, sizeof(data));", True),
+               R("insert(end(), byte)", r"insert\(end\(\), ([^;]+)\);", r"ByteVec_push(self, \1);", True)]},
+    {"name": "push_data", "cname": "CScript_push_data", "kind": "func", "file": SH, "within_class": r"class CScript : public CScriptBase", "head": r"CScript& operator<<\(std::span<const std::byte> b\) LIFETIMEBOUND",
+     "rules": [R("method-head", r"CScript& operator<<\(std::span<const std::byte> b\) LIFETIMEBOUND", "void CScript_push_data(ByteVec* self, const ByteVec* b)"),
+               R("call:AppendDataSize", r"AppendDataSize\(b\.size\(\)\);", "CScript_AppendDataSize(self, (uint32_t)b->size);", True),
+               R("call:AppendData", r"AppendData\(\{reinterpret_cast<const value_type\*>\(b\.data\(\)\), b\.size\(\)\}\);", "ByteVec_append(self, b->data, b->size);", True), RET_THIS]},
+    {"name": "push_int64", "cname": "CScript_push_int64", "kind": "func", "file": SH, "within_class": r"class CScript : public CScriptBase", "head": r"CScript& push_int64\(int64_t n\)",
+     "rules": [R("method-head", r"CScript& push_int64\(int64_t n\)", "void CScript_push_int64(ByteVec* self, int64_t n)"),
+               R("push_back", r"push_back\(([^;]+)\);", r"ByteVec_push(self, (unsigned char)(\1));", True),
+               R("*this << CScriptNum::serialize(n)", r"\*this << CScriptNum::serialize\(n\);", "{ unsigned char tmp_d[9]; ByteVec tmp = {tmp_d, 0, 9}; CScriptNum_serialize(&tmp, n); CScript_push_data(self, &tmp); }", True), RET_THIS]},
+    {"name": "bip34_height", "cname": "ContextualCheckBlock_bip34", "kind": "frag", "file": VC, "within": r"static bool ContextualCheckBlock\([^)]*\)",
+     "begin": r"if \(DeploymentActiveAfter\(pindexPrev, chainman, Consensus::DEPLOYMENT_HEIGHTINCB\)\)", "end": r"if \(!CheckWitnessMalleation\(block", "include_end": False,
+     "prologue": "bool ContextualCheckBlock_bip34(const ByteVec* cb_scriptSig, const int nHeight, bool bip34_active, BlockValidationState* state)\n{", "epilogue": "    return 1;\n}",
+     "rules": [R("ghost:DeploymentActiveAfter(HEIGHTINCB)", r"DeploymentActiveAfter\(pindexPrev, chainman, Consensus::DEPLOYMENT_HEIGHTINCB\)", "bip34_active", True),
+               R("CScript() << nHeight", r"CScript expect = CScript\(\) << nHeight;", "unsigned char expect_d[16]; ByteVec expect_v = {expect_d, 0, 16}; ByteVec* expect = &expect_v; CScript_push_int64(expect, nHeight);", True),
+               R("view:coinbase scriptSig size", r"block\.vtx\[0\]->vin\[0\]\.scriptSig\.size\(\)", "cb_scriptSig->size", True), R("member:expect.size()", r"expect\.size\(\)", "expect->size", True),
+               R("std::equal over expect", r"std::equal\(expect\.begin\(\), expect\.end\(\), block\.vtx\[0\]->vin\[0\]\.scriptSig\.begin\(\)\)", "ByteVec_equal_prefix(expect, cb_scriptSig)", True), INV]},
     {"name": "weight_limit", "cname": "ContextualCheckBlock_weight_limit", "kind": "frag", "file": VC, "within": r"static bool ContextualCheckBlock\([^)]*\)",
      "begin": r"if \(GetBlockWeight\(block\) > MAX_BLOCK_WEIGHT\)", "end": r"return true;", "include_end": True,
      "prologue": "bool ContextualCheckBlock_weight_limit(const CBlockView* block, BlockValidationState* state)\n{", "epilogue": "}", "rules": [INV]},
 ]
 for _s in SLICES:
     _s["guard"] = "C06_CONSTS" if _s["kind"] == "const" else "C06_FUNCS"
-RH = {"SPEC_R_" + r.replace("-", "_"): reason_hash(r) for r in ("bad-signet-blksig", "bad-blk-length", "bad-cb-missing", "bad-cb-multiple", "bad-blk-sigops", "bad-blk-weight")}
+RH = {"SPEC_R_" + r.replace("-", "_"): reason_hash(r) for r in ("bad-cb-height", "bad-signet-blksig", "bad-blk-length", "bad-cb-missing", "bad-cb-multiple", "bad-blk-sigops", "bad-blk-weight")}
 PLAN = {
     "id": "C06", "level": "proof", "slices": SLICES, "spec": "spec.c", "default_solver": ["cadical", "z3"], "cc_defines": [f"{k}={v:#x}u" for k, v in RH.items()],
     "harnesses": [
         {"name": "h_CheckBlock", "enforce": "CheckBlock", "loop_contracts": True, "twins": [{"define": "TWIN_SIGOPS", "expect": "postcondition"}, {"define": "TWIN_TWO_CB", "expect": "postcondition"}], "timeout": 600},
         {"name": "h_GetTransactionSigOpCost", "enforce": "GetTransactionSigOpCost", "loop_contracts": True, "twins": [{"define": "TWIN_COST", "expect": "postcondition"}]},
         {"name": "h_sigops_accumulation", "enforce": "ConnectBlock_sigops_accumulation", "replace": ["GetTransactionSigOpCost"], "twins": [{"define": "TWIN_80001", "expect": "postcondition"}]},
+        {"name": "h_bip34", "enforce": "ContextualCheckBlock_bip34", "unwind": 12, "twins": [{"define": "TWIN_BIP34", "expect": "postcondition"}]},
         {"name": "h_GetBlockWeight", "enforce": "GetBlockWeight"},
         {"name": "h_weight_limit", "enforce": "ContextualCheckBlock_weight_limit", "replace": ["GetBlockWeight"], "twins": [{"define": "TWIN_WEIGHT", "expect": "postcondition"}]},
     ],
     "native": {"src": "replay.cpp", "c_src": "native_slices.c", "repo_sources": ["src/consensus/tx_verify.cpp"], "diff_n_quick": 3000, "diff_n_thorough": 200000,
                "libs": ["libbitcoin_common.a", "libbitcoin_consensus.a", "libbitcoin_util.a", "libbitcoin_clientversion.a", "libbitcoin_crypto.a", "/repo/_build/src/secp256k1/lib/libsecp256k1.a"]},
     "not_covered": ["the script scanners (CScript::GetSigOpCount, CountWitnessSigOps, GetP2SHSigOpCount): their results are ghost inputs; the native harness runs the real ones on scripts with sigops in scriptSigs, outputs, redeem and witness scripts",
-                    "BIP34 (coinbase scriptSig starts with the height): the CScript() << nHeight encoding is not extracted", "block weight / serialized sizes themselves (serializer)"],
+                    "block weight / serialized sizes themselves (serializer)"],
     "assumptions": ["block.vtx[k]->IsCoinBase(), CheckTransaction(*vtx[k]) and GetLegacySigOpCount(*vtx[k]) are ghost functions of the position k (one pinned position, read once each); CheckBlockHeader, CheckSignetBlockSolution and CheckMerkleRoot are stubs with arbitrary verdicts that set the state on failure",
                     "a transaction's legacy sigop count is at most its number of script bytes, so the block's running total is at most the stripped block size (ASSUMED on the stub; makes the `unsigned int` sum exact)",
                     "GetTransactionSigOpCost: the legacy and P2SH counts are at most 4,000,000 each (script bytes of a transaction in a block), witness sigop counts of a transaction total at most 4,000,000 (its witness bytes); inputs exist and are unspent (ConnectBlock checked them)"],
@@ -71,8 +98,8 @@ PLAN = {
         "category": "proof",
         "text": "partial (limits and coinbase position, sigop-cost arithmetic): CheckBlock accepts a not-yet-checked block only if the header check, (signet) block solution and (if asked) merkle check pass, it has at least one transaction, 4 * count and 4 * stripped size are at most 4,000,000, the first transaction is a coinbase and no other is, every transaction passes CheckTransaction, and 4 * (sum of legacy sigops) is at most 80,000 -- "
                 "and each violation, including by the smallest amount, is rejected with its named reason (bad-blk-length, bad-cb-missing, bad-cb-multiple, the transaction's reason, bad-blk-sigops); fChecked is set only on success with both fCheckPOW and fCheckMerkleRoot; "
-                "GetTransactionSigOpCost = 4*legacy for a coinbase, else 4*legacy + 4*P2SH (if the flag) + witness sigops, without overflow; ConnectBlock's accumulation rejects exactly when the running cost exceeds 80,000; GetBlockWeight = 3*stripped + total and ContextualCheckBlock rejects exactly when it exceeds 4,000,000.",
-        "note": "Not covered: the script scanners that count sigops, BIP34 height encoding, sizes. Trusted: extraction rules, ghost accessors.",
+                "GetTransactionSigOpCost = 4*legacy for a coinbase, else 4*legacy + 4*P2SH (if the flag) + witness sigops, without overflow; ConnectBlock's accumulation rejects exactly when the running cost exceeds 80,000; with BIP34 active the coinbase scriptSig must start with the script push of the height (OP_0, OP_1..OP_16, else length byte + minimal little-endian bytes: CScript::push_int64, AppendDataSize and CScriptNum::serialize are extracted and run inside the proof) or the block is rejected with bad-cb-height; GetBlockWeight = 3*stripped + total and ContextualCheckBlock rejects exactly when it exceeds 4,000,000.",
+        "note": "Not covered: the script scanners that count sigops, serialized sizes. Trusted: extraction rules, ghost accessors.",
         "technique": "CBMC function contracts with loop contracts (pinned-position ghosts) on extracted CheckBlock / GetTransactionSigOpCost / GetBlockWeight and anchor-delimited fragments of ConnectBlock and ContextualCheckBlock",
     },
     "trusted_base": ["specs/C06/spec.c", "include/verif_tx.h"],
